@@ -276,7 +276,7 @@ fn run(case: &Case, out: &mut Out) {
             "flush_check" => {
                 let s = st_.as_mut().unwrap();
                 let mut tmp = [0u8; 65536];
-                for _ in 0..10000 {
+                for _ in 0..3000 {
                     loop {
                         match s.peer.read(&mut tmp) {
                             Ok(0) => break,
@@ -287,9 +287,9 @@ fn run(case: &Case, out: &mut Out) {
                     if s.chan.back_buf.available_data() == 0 {
                         break;
                     }
+                    // what the event loop does: a WRITABLE event, then run()
                     s.chan.handle_events(Ready::WRITABLE);
-                    s.chan.interest.insert(Ready::WRITABLE);
-                    let _ = s.chan.writable();
+                    let _ = s.chan.run();
                 }
                 loop {
                     match s.peer.read(&mut tmp) {
